@@ -13,7 +13,7 @@ read -r RUN PKG < <(python3 - "$SD" <<'PY'
 import json,re,sys
 m=json.load(open(sys.argv[1]+'/meta.json'))
 c=m['demo_cmd']
-run=re.search(r'-run\s+(\S+)',c).group(1)
+run=re.search(r'-run\s+(\S+)',c).group(1).strip(chr(39)+chr(34))
 pkg=re.findall(r'(\./\S+)',c)[-1]
 print(run,pkg)
 PY
